@@ -621,7 +621,8 @@ struct NegEnv {
     QObject ctx;
     enum Rq { None, Resume, Bind, Enable } lastReq = None;
     QString bindId;
-    bool connected = false;
+    bool connected = false;      // a session is established
+    bool attempting = false;     // transport up and stream started, but no session yet
     bool refResumable = false;   // script truth: the last session had stream management with resume='true' and was not ended orderly
     bool olderResumable = false; // an EARLIER session was resumable and nothing since told the client otherwise (orderly close,
                                  // <enabled/> without resume): the situation in which a stale belief can survive
@@ -696,11 +697,35 @@ struct NegEnv {
         oraclePass()++;
     }
 
+    // a connection attempt begins: transport up, stream started, nothing negotiated yet (no session)
+    void begin()
+    {
+        if (connected) loss();
+        if (attempting) return;
+        fs->up(); attempting = true;
+        c->streamStart();
+        lastReq = None;
+        line("sock 1");
+    }
+    // the client itself gives the attempt up during negotiation (here: an element it does not understand -> "Unexpected element
+    // received", disconnectFromHost(): resumption is given up too), then the socket reports the disconnect.  No session was ever
+    // established on this connection, but the requests kept from a lost resumable session — and those issued while negotiating —
+    // now belong to nothing that could be resumed: they must complete.
+    void abortAttempt()
+    {
+        if (!attempting) return;
+        c->inject(QL("<bogus xmlns='urn:verif:bogus'/>"));
+        fs->down(); attempting = false;
+        c->socketLost();
+        refResumable = false; olderResumable = false;
+        mustAllBeCompleted("C07:neg:pending-after-aborted-attempt");
+        line("ndisc");
+    }
     void loss()
     {
-        if (!connected) return;
+        if (!connected && !attempting) return;
         auto before = pendingNow();
-        fs->down(); connected = false;
+        fs->down(); connected = false; attempting = false;
         c->socketLost();
         bool can = refResumable;
         if (can) mustAllBeRetained(before);
@@ -723,8 +748,8 @@ struct NegEnv {
     {
         if (connected) loss();
         auto before = pendingNow();
-        fs->up(); connected = true;
-        c->streamStart();
+        if (!attempting) { fs->up(); c->streamStart(); }   // otherwise the attempt begun earlier goes on
+        attempting = false; connected = true;
         lastReq = None;
         bool sm = pol != 'N';
         c->inject(QL("<stream:features xmlns:stream='http://etherx.jabber.org/streams'><bind xmlns='urn:ietf:params:xml:ns:xmpp-bind'/>") +
@@ -788,6 +813,8 @@ struct NegEnv {
         else if (sym == "reply") reply(false);
         else if (sym == "stray") reply(true);
         else if (sym == "loss") loss();
+        else if (sym == "begin") begin();
+        else if (sym == "abort") abortAttempt();
         else if (sym == "disc") orderlyDisconnect();
         else if (sym == "connR") connect('R');
         else if (sym == "connF") connect('F');
@@ -1448,15 +1475,17 @@ int main(int argc, char **argv)
     // corpus first: witness of the defect fixed by repo commit c590ae4 (stale "can resume" after a session without stream
     // management; oracle key C07:neg:stale-resumable-after-session-without-sm)
     runNegSeq({ "connR", "connN", "send", "loss" });
+    runNegSeq({ "connF", "send", "loss", "begin", "abort" });       // seeded change C07_c1 (a): kept request, then an attempt the client aborts
+    runNegSeq({ "begin", "send", "abort" });                        // seeded change C07_c1 (b): request issued while negotiating, attempt fails
     runNegSeq({ "connF", "send", "connF" });                        // seeded change C07_a1: refused resumption, new session WITH stream management
     runNegSeq({ "connF", "connR", "send", "connF" });               // seeded change C07_b1: 'resumed' of the previous session must not leak
     runNegSeq({ "connF", "send", "loss", "connR", "reply", "send", "loss", "connN" });
     {
-        std::vector<std::string> nalpha = { "send", "reply", "loss", "connR", "connF", "connN", "disc" };
+        std::vector<std::string> nalpha = { "send", "reply", "loss", "connR", "connF", "connN", "disc", "begin", "abort" };
         int dNeg = a.mode == "fast" ? 4 : thorough ? 6 : 5;
         for (int d = 1; d <= dNeg; d++) enumNeg(nalpha, d, cur);
         vh::stat("exhaustive_depth_neg", dNeg); vh::stat("alphabet_neg", (long long)nalpha.size());
-        std::vector<std::string> nfull = { "send", "send", "reply", "stray", "loss", "connR", "connR", "connF", "connU", "connN", "disc" };
+        std::vector<std::string> nfull = { "send", "send", "reply", "stray", "loss", "connR", "connR", "connF", "connU", "connN", "disc", "begin", "begin", "abort" };
         int nneg = a.mode == "fast" ? 200 : thorough ? 20000 : 2000;
         for (int n = 0; n < nneg; n++) {
             int len = 3 + rng.below(28);
